@@ -1,5 +1,5 @@
 """C03: the three deduplication schemes form a hierarchy (composition equalities)."""
-from pysx.api import sym_str, cat, HEXDOM
+from pysx.api import sym_str, sym_tokens, cat, HEXDOM
 from pysx.harness import run_prop
 from spec import c03 as S
 from checks.nskel import SKELETONS, LONG
@@ -23,6 +23,18 @@ def hier(st, skel, n, flag):
     run_prop(st, "fingerprint_after_normalize", S.fingerprint_after_normalize, u, flag, False)
 
 
+def qorder(st, k1, k2, flag):
+    """two query items whose keys are token-shaped holes (a code point, an escape, a 2-byte escaped UTF-8 sequence):
+    the items' order after unquoting / lower-casing is what the three schemes must agree on"""
+    u = cat("http://x.fr/?", sym_tokens(st, "k", k1), "=1&", sym_tokens(st, "m", k2), "=2")
+    run_prop(st, "normalize_after_canonicalize", S.normalize_after_canonicalize, u, flag, False)
+    run_prop(st, "fingerprint_after_canonicalize", S.fingerprint_after_canonicalize, u, flag, False)
+    run_prop(st, "fingerprint_after_normalize", S.fingerprint_after_normalize, u, flag, False)
+
+
+QORDER_QUICK = ()
+QORDER_ALL = (("%C3e", "c"), ("E", "c"), ("c", "E"), ("c", "c"))
+
 N2 = ("path-escape-index", "path-escape-amp", "query-escape", "redirect", "no-scheme-port")
 
 
@@ -42,4 +54,8 @@ def items(tier):
                 if n >= 2:
                     it["defer_depth"] = 8 if n == 2 else 12
                 out.append(it)
+    for k1, k2 in (QORDER_QUICK if quick else QORDER_ALL):
+        for flag in ((False,) if quick else (False, True)):
+            out.append({"fn": "qorder", "params": {"k1": k1, "k2": k2, "flag": flag}, "name": "query-order %s,%s flag=%s" % (k1, k2, flag),
+                        "weight": 64, "defer_depth": 8})
     return out
